@@ -172,7 +172,21 @@ func orderProgram(r *mon.Rand) (src string, tags []string) {
 		for i := 0; i < k; i++ {
 			ps = append(ps, fmt.Sprintf("p%d=%s", i, bad[p[i]]))
 		}
-		switch r.Intn(3) {
+		switch r.Intn(5) {
+		case 3, 4:
+			// several top-level functions declared twice (also under the names of default globals)
+			names := []string{"load", "store", "keys", "sorted", "fa", "fb", "zz_last", "len"}
+			q := r.Perm(len(names))
+			n := 2 + r.Intn(4)
+			var decls []string
+			for i := 0; i < n; i++ {
+				decls = append(decls, fmt.Sprintf("func %s(x) { return %d }", names[q[i]], i))
+			}
+			q2 := r.Perm(n)
+			for _, i := range q2 {
+				decls = append(decls, fmt.Sprintf("func %s(y, z) { return %d }", names[q[i]], 10+i))
+			}
+			return "print(1)\n" + strings.Join(decls, "\n") + "\nprint(2)\n", []string{fmt.Sprintf("functions-redefined%d", n)}
 		case 0:
 			return "func f(" + strings.Join(ps, ", ") + ") { return 1 }\nprint(f())\n", []string{fmt.Sprintf("bad-defaults%d", k)}
 		case 1:
@@ -285,6 +299,8 @@ func orderProgram(r *mon.Rand) (src string, tags []string) {
 		"print(try(func() { return encode([m, {\"a\": 1, \"k1\": 2, \"k9\": 3, \"k4\": 4, \"k7\": 5, \"k2\": 6}, m.copy()], \"csv\") }, func(e) { return string(e) }))",
 		"print(try(func() { return encode([{\"x\": \"1\"}, m], \"csv\") }, func(e) { return string(e) }), try(func() { return encode(list(s), \"csv\") }, func(e) { return string(e) }))",
 		"print(try(func() { return decode(encode([{\"h3\": \"a\", \"h1\": \"b\", \"h2\": \"c\"}, {\"h1\": \"d\", \"n5\": \"e\", \"n2\": \"f\", \"n8\": \"g\", \"n1\": \"h\"}], \"csv\"), \"csv\") }, func(e) { return string(e) }))",
+		"far := {9223372036854775807, -1, 0, -9223372036854775807, 5, 4611686018427387904, -4611686018427387905, 1.5, \"q\"}; print(far, list(far), string(far)); for x in far { tick(x) }; print(json.marshal(list(far)), sorted(far.union({2})))",
+		"print({9223372036854775807, -1}, {-9223372036854775807, 2, 1}, list({9223372036854775806, -3, 7}), {4611686018427387904: 1, -4611686018427387905: 2})",
 		"print(s.union(set(m.values())))", "print(sorted(m.values()))", "print(string(keys(m)), sprintf(\"%v %v\", m, s))", "print(m.get(\"a\", 0), m.pop(\"b\", -1), m.setdefault(\"q\", tick(200)), m)",
 	}
 	n := 3 + r.Intn(8)
